@@ -138,6 +138,16 @@ def variants_kind(stmt, n, base, full):
                     yield tuple(ops)
 
 
+def variants_pipe_dec(stmt, n, base):
+    """One operand (each position in turn) is a 2-stage pipeline `@dec1 A | @dec B`, every decorator pair."""
+    for i in range(n):
+        for d1 in DECS:
+            for d in DECS:
+                ops = [tuple(base)] * n
+                ops[i] = (base[0], d, base[2], True, "alias", d1)
+                yield tuple(ops)
+
+
 def all_subchains(t):
     """True when the chain's top boolean operator (after Python precedence) has ONLY sub-chains as operands,
     e.g. `a && b || c && d`, `(a || b) && (c || d)`: no command is a direct operand of the outermost operator."""
@@ -186,6 +196,11 @@ def blocks(thorough):
             # operand 3+ observable: in a 3-operand chain a failing last operand raises either way.
             dict(id="expr-n4-flat-single-op", stmt="expr", nmin=4, nmax=4, bases=("name", "words"), only="flat_single", variant="form"),
             dict(id="expr-n4-flat-mixed", stmt="expr", nmin=4, nmax=4, bases=("words",), only="flat_mixed", variant="form", uniform=True),
+            # 2-stage pipeline operands with a decorator on either / both stages, all code combinations
+            dict(id="expr-pipe-dec", stmt="expr", nmax=2, bases=("name", "words"), variant="pipe_dec"),
+            # a failing $[...] / $(...) nested in a larger Python expression raises like the statement form
+            dict(id="nested-list", stmt="list", nmax=1, bases=("name", "words"), seps=(";", "nl"), variant="nested"),
+            dict(id="nested-call", stmt="call", nmax=1, bases=("name", "words"), seps=(";", "nl"), variant="nested"),
         ]
     else:
         spec = [
@@ -207,6 +222,9 @@ def blocks(thorough):
             dict(id="expr-kinds-n3", stmt="expr", nmin=3, nmax=3, bases=("name", "words"), variant="kind_bare"),
             dict(id="expr-negcodes", stmt="expr", nmax=3, k=1, bases=("name", "words"), codes=(0, -1, -15)),
             dict(id="expr-n4-flat-name", stmt="expr", nmin=4, nmax=4, bases=("name",), only="flat", variant="form"),
+            dict(id="nested-list", stmt="list", nmax=1, bases=TEXTS, seps=(";", "nl"), variant="nested", codes=(0, 1, 2, -1)),
+            dict(id="nested-call", stmt="call", nmax=1, bases=TEXTS, seps=(";", "nl"), variant="nested", codes=(0, 1, 2, -1)),
+            dict(id="expr-pipe-dec", stmt="expr", nmax=3, bases=("name", "words"), seps=(";", "nl"), variant="pipe_dec", uniform=True, codes=(0, 1, 2)),
             dict(id="expr-n4-flat-words-semicolon", stmt="expr", nmin=4, nmax=4, bases=("words",), seps=(";",), only="flat", variant="form"),
         ]
     return [dict(d, **b) for b in spec]
@@ -245,6 +263,10 @@ def block_items(bi, b):
                 vs = variants_kind(b["stmt"], n, base, b["variant"] == "kind_full")
                 if b["variant"] == "kind_bare":
                     vs = [v for v in vs if all(o[0] == "bare" and o[1] == "" for o in v)]
+            elif b["variant"] == "nested":  # $[...] / $(...) with every decorator, nested in a Python expression
+                vs = [((f, d, base_text, False),) for f in ("unc", "out") for d in DECS]
+            elif b["variant"] == "pipe_dec":
+                vs = variants_pipe_dec(b["stmt"], n, base)
             elif b["variant"] == "form":  # all bare, and every other form at every single position
                 vs = [v for v in variants(b["stmt"], n, base, 1) if all(o[1:] == tuple(base[1:]) for o in v)]
             else:
@@ -266,7 +288,10 @@ def mkprog(stmt, tree, ops, sep):
     return {
         "stmt": stmt,
         "tree": tree,
-        "ops": [dict(form=o[0], dec=o[1], text=o[2], pipe=bool(o[3]), **({"kind": o[4]} if len(o) > 4 else {})) for o in ops],
+        "ops": [
+            dict(form=o[0], dec=o[1], text=o[2], pipe=bool(o[3]), **({"kind": o[4]} if len(o) > 4 else {}), **({"dec1": o[5]} if len(o) > 5 else {}))
+            for o in ops
+        ],
         "sep": "nl" if stmt == "if" else sep,
     }
 
@@ -507,7 +532,8 @@ def _signature(prog, codes, R, C, outs, log, exc):
 
 def _descr(op, pipe, neg=False):
     kind = op.get("kind", "alias")
-    return f"{op['form']}/{op['dec'] or '-'}" + ("/pipe" if pipe else "") + (f"/{kind}" if kind != "alias" else "") + ("/rc<0" if neg else "")
+    d1 = f"/stage1@{op['dec1']}" if op.get("dec1") and pipe else ""
+    return f"{op['form']}/{op['dec'] or '-'}" + ("/pipe" if pipe else "") + d1 + (f"/{kind}" if kind != "alias" else "") + ("/rc<0" if neg else "")
 
 
 def _has_group(t):
@@ -553,7 +579,8 @@ def make_key(prog, codes, R, C, outs, log, exc, runner=None):
         if s2 not in (None, "ok") and s2[:3] == (clause, flags, sig) and s2[3] == dev and line_kind(p2) == lk:
             pipe = False
     neg = codes.get(ref.names(dev, op)["main"], 0) < 0
-    return f"{clause}:{flags}:{sig}:{_descr(op, pipe, neg)}:{lk}", clause
+    nested = f":nested-in-{prog['stmt']}" if prog["stmt"] in ("list", "call") else ""
+    return f"{clause}:{flags}:{sig}:{_descr(op, pipe, neg)}:{lk}{nested}", clause
 
 
 def _runner(prog, codes, R, C):
